@@ -1,0 +1,59 @@
+// +build verif
+
+package cmd
+
+// Contracts for the verifier in /verif (comment-only; see /verif/DESIGN.md).
+//
+// The batch an agent receives was decoded from the gossip network: nothing is
+// assumed about it except that the processor hands over a non-nil batch value.
+// What IS assumed is the deployment: the context carries the agent, and an
+// auditor/monitor/publisher agent was started with the services it needs.
+
+/*@
+define hasAgent(ctx) = istype(ctxval(ctx, box("agent")), *gossip.Agent) && dyn(ctxval(ctx, box("agent")), *gossip.Agent) != nil
+define hasBatch(ctx) = istype(ctxval(ctx, box("batch")), *protocol.BatchSnapshots) && dyn(ctxval(ctx, box("batch")), *protocol.BatchSnapshots) != nil
+
+// ---- auditor ----------------------------------------------------------------------
+
+func membershipFactory.New
+  props C12 C19
+  requires !isnil(ctx) && hasAgent(ctx) && hasBatch(ctx)
+  modifies everything
+
+func membershipFactory.New.$[a,s]
+  props C12 C19
+  captures s != nil && s.Snapshot != nil
+  requires a != nil && a.Qed != nil && !isnil(a.Notifier) && !isnil(a.SnapshotStore) && !isnil(i.log)
+  requires a.Qed.hasherF != nil && pure_fn(a.Qed.hasherF) && nonnil_fn(a.Qed.hasherF)
+  modifies everything, alerts, verifyCalls, lastVerify, lastVerifyHistory, lastVerifyHyper
+  // C19: once verification has been reached, an alert is raised iff it failed
+  ensures C19/alert-iff-not-verified: verifyCalls == old(verifyCalls) + 1 ==> (lastVerify ==> alerts == old(alerts)) && (!lastVerify ==> alerts == old(alerts) + 1)
+  ensures C19/at-most-one-verification: verifyCalls == old(verifyCalls) || verifyCalls == old(verifyCalls) + 1
+
+// ---- monitor ----------------------------------------------------------------------
+
+func incrementalFactory.New
+  props C12 C19
+  requires !isnil(ctx) && hasAgent(ctx) && hasBatch(ctx)
+  modifies everything
+
+func incrementalFactory.New.$[a,b]
+  props C12 C19
+  requires a != nil && a.Qed != nil && !isnil(a.Notifier) && !isnil(i.log) && b != nil
+  requires a.Qed.hasherF != nil && pure_fn(a.Qed.hasherF) && nonnil_fn(a.Qed.hasherF)
+  modifies everything, alerts, verifyCalls, lastVerify, lastVerifyHistory, lastVerifyHyper
+  ensures C19/alert-iff-not-verified: verifyCalls == old(verifyCalls) + 1 ==> (lastVerify ==> alerts == old(alerts)) && (!lastVerify ==> alerts == old(alerts) + 1)
+
+// ---- publisher --------------------------------------------------------------------
+
+func publisherFactory.New
+  props C12 C19
+  requires !isnil(ctx) && hasAgent(ctx) && hasBatch(ctx) && !isnil(p.log)
+  modifies everything
+
+func publisherFactory.New.$[a,b]
+  props C12 C19
+  requires a != nil && !isnil(a.Cache) && !isnil(a.SnapshotStore) && !isnil(p.log) && b != nil
+  modifies everything, putBatches
+  ensures C19/at-most-one-put: putBatches == old(putBatches) || putBatches == old(putBatches) + 1
+@*/
